@@ -107,6 +107,13 @@ impl Client {
         let boundary = "----verifboundary7MA4YWxkTrZu0gW";
         let mut body = Vec::new();
         for (k, v) in fields {
+            if let Some(name) = k.strip_prefix("@") {
+                // a file part
+                body.extend(format!("--{boundary}\r\nContent-Disposition: form-data; name=\"{name}\"; filename=\"upload.adf\"\r\nContent-Type: text/plain\r\n\r\n").as_bytes());
+                body.extend(v.as_bytes());
+                body.extend(b"\r\n");
+                continue;
+            }
             body.extend(format!("--{boundary}\r\nContent-Disposition: form-data; name=\"{k}\"\r\n\r\n").as_bytes());
             body.extend(v.as_bytes());
             body.extend(b"\r\n");
